@@ -359,16 +359,22 @@ fn main() {
             let lim = Limits { max_paths: 1, max_secs: 5.0, max_violations: 1000 };
             for s in start..start + count {
                 gp.seed = s;
-                let c = solve::SolveCase { shape: Shape::generate(&gp), rub: Rub::None, cache: true, nodup: a.get("fringe", "simple") == "nodup", width: a.num("width", 1) as usize, rev_rank: false, mode: solve::Mode::Plain, warm: 0, props: vec!["C01".to_string()], kmax: 40, sym_init: false };
+                let c = solve::SolveCase { shape: Shape::generate(&gp), rub: if a.get("rub", "none") == "hslack" { Rub::HSlack } else { Rub::None }, cache: a.num("cache", 1) == 1, nodup: a.get("fringe", "simple") == "nodup", width: a.num("width", 1) as usize, rev_rank: false, mode: solve::Mode::Plain, warm: 0, props: vec!["C01".to_string(), "C02".to_string()], kmax: 40, sym_init: false };
                 let mut hit = false;
                 for t in 0..tries {
                     let rep = match a.get("dd", "lel").as_str() {
-                        "frontier" => explore(&lim, s * 1000 + t, false, &[], &mut || solve::body::<Mdd<St, { FRONTIER }>, solve::CountingCache>(&c)),
-                        "pooled" => explore(&lim, s * 1000 + t, false, &[], &mut || solve::body::<Pooled<St>, solve::CountingCache>(&c)),
-                        _ => explore(&lim, s * 1000 + t, false, &[], &mut || solve::body::<Mdd<St, { LAST_EXACT_LAYER }>, solve::CountingCache>(&c)),
+                        "frontier" if c.cache => explore(&lim, s * 1000 + t, false, &[], &mut || solve::body::<Mdd<St, { FRONTIER }>, solve::CountingCache>(&c)),
+                        "pooled" if c.cache => explore(&lim, s * 1000 + t, false, &[], &mut || solve::body::<Pooled<St>, solve::CountingCache>(&c)),
+                        "frontier" => explore(&lim, s * 1000 + t, false, &[], &mut || solve::body::<Mdd<St, { FRONTIER }>, EmptyCache<St>>(&c)),
+                        "pooled" => explore(&lim, s * 1000 + t, false, &[], &mut || solve::body::<Pooled<St>, EmptyCache<St>>(&c)),
+                        _ if c.cache => explore(&lim, s * 1000 + t, false, &[], &mut || solve::body::<Mdd<St, { LAST_EXACT_LAYER }>, solve::CountingCache>(&c)),
+                        _ => explore(&lim, s * 1000 + t, false, &[], &mut || solve::body::<Mdd<St, { LAST_EXACT_LAYER }>, EmptyCache<St>>(&c)),
                     };
-                    if wantn.iter().all(|w| rep.notes.get(w).copied().unwrap_or(0) > 0) {
+                    if wantn.iter().all(|w| if w == "VIOLATION" { !rep.violations.is_empty() } else { rep.notes.get(w).copied().unwrap_or(0) > 0 }) {
                         hit = true;
+                        if wantn.iter().any(|w| w == "VIOLATION") {
+                            eprintln!("seed {} try {}: {}", s, t, rep.violations.iter().map(|v| format!("{} {}", v.label, v.detail.chars().take(80).collect::<String>())).collect::<Vec<_>>().join(" | "));
+                        }
                         break;
                     }
                 }
@@ -416,8 +422,11 @@ fn main() {
                         "pooled" => explore(&lim, s * 1000 + t, false, &[], &mut || dd::body::<Pooled<St>>(&c)),
                         _ => explore(&lim, s * 1000 + t, false, &[], &mut || dd::body::<Mdd<St, { FRONTIER }>>(&c)),
                     };
-                    if wantn.iter().all(|w| rep.notes.get(w).copied().unwrap_or(0) > 0) {
+                    if wantn.iter().all(|w| if w == "VIOLATION" { !rep.violations.is_empty() } else { rep.notes.get(w).copied().unwrap_or(0) > 0 }) {
                         hit = true;
+                        if wantn.iter().any(|w| w == "VIOLATION") {
+                            eprintln!("seed {} try {}: {}", s, t, rep.violations.iter().map(|v| v.label.clone()).collect::<Vec<_>>().join(" "));
+                        }
                         break;
                     }
                 }
